@@ -868,3 +868,26 @@ def g_obs_gs_ps(rng, level=0, n_random=120):
         N = int(rng.integers(1, 6))
         q = tuple(int(x) for x in rng.choice(N, size=int(rng.integers(1, N + 1)), replace=False))
         yield {'self': ci.MeasureLayer(*q, N=N)}
+
+
+@gen(ST + 'CliffordMap.embed')
+def g_embed(rng, level=0, n_random=150):
+    for k in range(n_random):
+        N = 1 + k % 4
+        mask = _rand_mask(rng, N, k // 4)
+        yield {'self': _rand_map(rng, N), 'small_map': _rand_map(rng, int(mask.sum())), 'mask': mask}
+
+
+@gen(CI + 'CliffordLayer.independent_from')
+def g_layer_indep(rng, level=0, n_random=250):
+    import pyclifford.circuit as ci
+    for _ in range(n_random):
+        N = int(rng.integers(2, 8))
+        perm = [int(x) for x in rng.permutation(N)]
+        gates, pos = [], 0
+        while pos < N and rng.integers(0, 4) > 0:
+            n = int(rng.integers(1, min(3, N - pos) + 1))
+            gates.append(ci.CliffordGate(*sorted(perm[pos:pos + n])))
+            pos += n
+        q = tuple(sorted(int(x) for x in rng.choice(N, size=int(rng.integers(1, min(N, 3) + 1)), replace=False)))
+        yield {'self': ci.CliffordLayer(*gates), 'other_gate': ci.CliffordGate(*q)}
